@@ -686,14 +686,25 @@ def gen_c16(rng, eof_step: Optional[int] = None) -> Dict[str, Any]:
     cl["irset"] = irsets.gen_irset(rng, special=rng.random() < 0.5, toggle=rng.random() < 0.5)
     devices[0]["state"] = gen_breeze_state(rng, cl["irset"]["IRSetID"])
     cap = irsets.capabilities(cl["irset"])
+    lo_t, hi_t = (cap["min"], cap["max"]) if cap["min"] is not None else (16, 30)
     if rng.random() < 0.85:
         devices[0]["state"]["t_mode"] = rng.choice(cap["modes"])
     cfg["devices"], cfg["clients"] = devices, clients
     steps: List[dict] = [{"kind": "connect", "client": 0}]
-    for i in range(rng.randrange(1, 5)):
+    earlier: List[Dict[str, Any]] = []
+    for i in range(rng.choice([1, 2, 3, 4, 4, 6, 8])):
         st = {"kind": "control_breeze_device", "client": 0, "args": gen_breeze_args(rng)}
         if "mode" in st["args"] and rng.random() < 0.8:
             st["args"]["mode"] = {1: "AUTO", 2: "DRY", 3: "FAN", 4: "COOL", 5: "HEAT"}[rng.choice(cap["modes"])]
+        r = rng.random()
+        if earlier and r < 0.3:
+            st["args"] = dict(rng.choice(earlier))                       # the very same request again, later
+        elif earlier and r < 0.45:
+            st["args"] = dict(rng.choice(earlier))
+            st["args"]["target"] = rng.randrange(lo_t, hi_t + 1)         # same shape, another temperature
+        elif r < 0.55:
+            st["args"] = {"state": rng.choice(["ON", "OFF"])}            # just the power button
+        earlier.append(dict(st["args"]))
         reps: List[Optional[dict]] = [{"mode": "ok", "delay": heavy_delay(rng)} for _ in range(4)]
         if eof_step is not None and i == 0:
             reps[eof_step] = {"mode": "eof"}
